@@ -1657,6 +1657,11 @@ void CoreSMTSolver::declareVarsToTheories()
             bool appearsInUf = logic.appearsInUF(atom);
             if (appearsInUf) {
                 theory_handler.declareAtom(atom);
+            } else if (isVarNeededForModelExtension(v)) {
+                // The atom lost all its clauses in variable elimination, but the value of an eliminated variable
+                // is later computed from it: it must stay a decision variable known to the theories, otherwise
+                // the extended Boolean model and the theory model disagree on it.
+                if (logic.isTheoryTerm(atom)) { theory_handler.declareAtom(atom); }
             } else {
                 setDecisionVar(v, false);
             }
